@@ -645,15 +645,15 @@ class Glob(Generic[AnyStr]):
             else:
                 scandir = os.path.join(self.root_dir, curdir) if curdir else self.root_dir
 
-            # Python will never return . or .., so fake it.
-            for special in self.specials:
-                yield special, True, True, False
-
             # Scanning a file descriptor always gives `str` names
             encode = fd is not None and isinstance(self.empty, bytes)
 
             try:
                 with os.scandir(scandir) as scan:
+                    # Python will never return . or .., so fake it (only for a directory that can be scanned).
+                    for special in self.specials:
+                        yield special, True, True, False
+
                     for f in scan:
                         try:
                             name = os.fsencode(f.name) if encode else f.name
@@ -867,7 +867,7 @@ class Glob(Generic[AnyStr]):
                                 for match, is_dir in self._glob(start, this, rest):
                                     if not self._is_excluded(match, is_dir):
                                         yield from self._format_path(match, is_dir, dir_only)
-                            elif not self._is_excluded(start, is_dir):
+                            elif self._lexists(start) and not self._is_excluded(start, is_dir):
                                 yield from self._format_path(start, is_dir, dir_only)
                     else:
                         # Return the file(s) and finish.
